@@ -95,6 +95,18 @@ CHECKS += [
           "computes half precision in single), double otherwise.",
   "technique": "exhaustive enumeration of all small input vectors and layouts on the real code against a long-double reference model"},
 ]
+CHECKS += [
+ {"property_id": "C20",
+  "text": "Bounded exhaustive exploration: 14 transform names x 9-13 shapes (rank 1..3) x 6 dtypes (incl. int8/bool) x every axis / "
+          "ordered axes pair / single-axis tuple x length arguments (None, shorter, longer) x 3 normalisations x NumPy and Dask "
+          "(chunked off the transformed axes; laziness and advertised shape/dtype checked): values, shape and dtype against "
+          "scipy.fft.<same name>, cross-checked with numpy.fft and a long-double DFT-definition reference; unknown names -> "
+          "AttributeError. STFT/ISTFT: nchan 1..4 x 3 alignments x nperseg in {1,2,3,4,5,N} x N in {12,15,16} x trailing dims: "
+          "labels, tones at known absolute frequency under the matching label, sample rate, start time, exact inversion.",
+  "note": "scipy.fft is the statement's reference; calls on which numpy.fft disagrees with scipy.fft (irfft* over a length-1 axis) "
+          "are unconstrained; budget 64 eps(result dtype) * size.",
+  "technique": "bounded exhaustive enumeration of call configurations on the real code against three reference models (library, independent library, long-double definition)"},
+]
 _ALL = ["C%02d" % i for i in range(1, 21)]
 NOT_APPLICABLE = [{"property_id": p, "reason": "check not yet built in this session (planned in DESIGN.md; no claim made yet)"}
                   for p in _ALL if p not in {c["property_id"] for c in CHECKS}]
